@@ -29,7 +29,7 @@ ID = "C12"
 PROP = {
     "level": "exploration",
     "level_text": ("Exploration of histories, exhaustive over a bounded space: all operation sequences of length <= 4 (quick) / <= 5 "
-                   "(thorough) over a 14-symbol alphabet for Clipper64 and ClipperD (adds, option toggles, four real Execute forms, Execute(NoClip) into paths and into a tree, Clear), a 13-symbol alphabet for ClipperOffset and an "
+                   "(thorough) over a 14-symbol alphabet for Clipper64 and ClipperD (adds, option toggles, four real Execute forms, Execute(NoClip) into paths and into a tree, Clear; 16 symbols in the USINGZ build, which adds SetZCallback(f) and SetZCallback(nullptr) and compares z too), a 13-symbol alphabet for ClipperOffset and an "
                    "8-symbol alphabet for RectClip64/RectClipLines64, on four path bundles (general position, rectilinear-degenerate, "
                    "seeded, seeded scanline-sensitive), are executed and every Execute is compared with a freshly constructed object given the same inputs and "
                    "options; plus random histories of 50-200 operations, two clippers alternating on a shared "
@@ -55,6 +55,10 @@ PROP = {
         {"mon": "mon_c12", "cfg": "plain", "cases": _q(4 * _nseq(14, 4), 4 * _nseq(14, 5)), "args": ["--mode", "cd", "--maxlen", "5"]},
         {"mon": "mon_c12", "cfg": "plain", "cases": _q(4 * _nseq(13, 4), 4 * _nseq(13, 5)), "args": ["--mode", "off", "--maxlen", "5"]},
         {"mon": "mon_c12", "cfg": "plain", "cases": _q(4 * _nseq(8, 4), 4 * _nseq(8, 5)), "args": ["--mode", "rect", "--maxlen", "5"]},
+        # USINGZ build: two more symbols (SetZCallback(f), SetZCallback(nullptr)); results compared including z
+        {"mon": "mon_c12", "cfg": "z", "cases": _q(4 * _nseq(16, 4), 4 * _nseq(16, 4)), "args": ["--mode", "c64", "--maxlen", "5"]},
+        {"mon": "mon_c12", "cfg": "z", "cases": _q(4 * _nseq(16, 4), 4 * _nseq(16, 5)), "args": ["--mode", "cd", "--maxlen", "5"]},
+        {"mon": "mon_c12", "cfg": "z", "cases": _q(4000, 40000), "args": ["--mode", "long"], "seed_off": 11},
         {"mon": "mon_c12", "cfg": "plain", "cases": _q(6000, 6000), "args": ["--mode", "long"], "twin": "long"},
         {"mon": "mon_c12", "cfg": "plain", "cases": _q(6000, 6000), "args": ["--mode", "long"], "twin": "long"},
         {"mon": "mon_c12", "cfg": "plain", "cases": _q(0, 40000), "args": ["--mode", "long"], "seed_off": 3},
